@@ -1350,7 +1350,7 @@ class BinaryOperator(SymbolicExpression, ABC):
             -> Iterable[Dict[int, HashedValue]]:
         cache = self._cache_ if cache is None else cache
         entered = False
-        for output, is_false in cache.retrieve(variables_sources):
+        for output, is_false in self._most_general_(cache.retrieve(variables_sources)):
             entered = True
             self._is_false_ = is_false
             cache_match_count.values[self._node_.name] += 1
@@ -1362,9 +1362,27 @@ class BinaryOperator(SymbolicExpression, ABC):
         cache_enter_count.values[self._node_.name] = cache.enter_count
         cache_search_count.values[self._node_.name] = cache.search_count
 
+    @staticmethod
+    def _most_general_(retrieved) -> List[Tuple[Dict[int, HashedValue], bool]]:
+        """
+        The same row may have been stored under several lookups, bound on more or fewer variables. Of the retrieved rows keep
+        those that no other retrieved row contains: a row that leaves a variable open stands for every value of it.
+        """
+        retrieved = list(retrieved)
+        kept = []
+        for i, (output, is_false) in enumerate(retrieved):
+            for j, (other, other_is_false) in enumerate(retrieved):
+                if i != j and other_is_false == is_false \
+                        and (len(other) < len(output) or (len(other) == len(output) and j < i)) \
+                        and all(k in output and output[k] == v for k, v in other.items()):
+                    break
+            else:
+                kept.append((output, is_false))
+        return kept
+
     def yield_from_cache(self, variables_sources, cache: IndexedCache) -> Iterable[Tuple[Dict[int, HashedValue], bool]]:
         entered = False
-        for output, is_false in cache.retrieve(variables_sources):
+        for output, is_false in self._most_general_(cache.retrieve(variables_sources)):
             entered = True
             cache_match_count.values[self._node_.name] += 1
             yield output, is_false
